@@ -738,6 +738,21 @@ def _run_sparse(case, ctx, b):
         b.cycle(sub, c, None, refs)
         if k >= 1:
             ctx.nontriv()
+    # explicitly stored zeros (a finite double like any other): every stored entry must survive the round trip
+    if k >= 1 and "order" not in case:
+        ident = tuple(range(k))
+        for zpos in sorted({0, k - 1}):
+            for zval in (0.0, -0.0):
+                vals2 = list(nzvals)
+                vals2[zpos] = zval
+                sub = dict(case, order=list(ident), stored_zero=[zpos, "neg" if str(zval).startswith("-") else "pos"])
+                ctx.flag("explicit_stored_zero")
+                b.cycle(sub, c_sptensor(shape, pat, vals2, ident), None, refs)
+    elif "stored_zero" in case:
+        zpos, sign = case["stored_zero"]
+        vals2 = list(nzvals)
+        vals2[zpos] = -0.0 if sign == "neg" else 0.0
+        b.cycle(case, c_sptensor(shape, pat, vals2, tuple(case["order"])), None, refs)
 
 
 def _run_sparse_big(case, ctx, b):
